@@ -120,6 +120,16 @@ pub fn gen_pair(r: &mut Rng, i: u64) -> (Dec, Dec) {
 
 /// Judge R as the quotient a / b under the statement's rule.  Returns whether the case was non-trivial.
 fn judge_quotient(ctx: &mut Ctx, case: &Case, what: &str, a: &Dec, b: &Dec, res: &Dec, prec: u64) -> bool {
+    let v0 = ctx.total_violations();
+    let nontrivial = judge_quotient_inner(ctx, case, what, a, b, res, prec);
+    if ctx.prop == "C08" && ctx.want_event() && what == "BigDecimal / BigDecimal" && a.tok().len() + b.tok().len() < 500 && (a.s as i128 - b.s as i128).abs() < 1500 {
+        let held = ctx.total_violations() == v0;
+        ctx.log("div", &[a.tok(), b.tok()], serde_json::json!({"prec": prec}), res.tok(), held);
+    }
+    nontrivial
+}
+
+fn judge_quotient_inner(ctx: &mut Ctx, case: &Case, what: &str, a: &Dec, b: &Dec, res: &Dec, prec: u64) -> bool {
     if a.n.is_zero() {
         ctx.check(res.n.is_zero(), "div/wrong", case, || format!("`{}`: 0 / b = {}", what, res.tok()));
         return false;
@@ -139,6 +149,22 @@ fn judge_quotient(ctx: &mut Ctx, case: &Case, what: &str, a: &Dec, b: &Dec, res:
     ctx.check(sign_ok, "div/wrong-sign", case, || format!("`{}`: {} / {} = {}", what, a.tok(), b.tok(), res.tok()));
     let nd = ndigits(&res.n);
     ctx.check(nd >= prec, "div/too-few-digits", case, || format!("`{}`: {} / {} = {} has only {} significant digits (precision {})", what, a.tok(), b.tok(), res.tok(), nd, prec));
+    // is the returned value the exact quotient (possible with more than P digits, e.g. division by 1.000)?
+    let returned_exact = {
+        let e = b.s as i128 - a.s as i128 + res.s as i128;
+        e.abs() <= 200_000 && if e >= 0 { &res.n * &b.n == &a.n * pow10(e as u64) } else { &res.n * &b.n * pow10((-e) as u64) == a.n }
+    };
+    if ctx.prop == "C20" && !returned_exact {
+        // C20: a rounded division *delivers the configured number* of significant digits: exactly P unless the quotient
+        // of the unscaled integers alone already has more (one more only when rounding carried 99..9 into 10..0)
+        let (mut num, den) = (a.n.abs(), b.n.abs());
+        while num < den { num *= 10u8; }
+        let d0 = ndigits(&(&num / &den));
+        let want = d0.max(prec);
+        let carried = nd == want + 1 && res.n.abs() == pow10(nd - 1);
+        ctx.check(nd == want || carried, "div/not-the-configured-number-of-digits", case, || format!(
+            "`{}`: {} / {} = {} has {} significant digits; configured precision {} (integer quotient has {})", what, a.tok(), b.tok(), res.tok(), nd, prec, d0));
+    }
     // compare Q*b with a*10^E, E = b.s - a.s + sc
     let e = b.s as i128 - a.s as i128 + res.s as i128;
     if e.abs() > 200_000 {
